@@ -205,7 +205,7 @@ def floors(tier):
     cells = [('mode-route', r, o, rt) for r in G.ROUNDINGS for o in G.OVERFLOWS for rt in ('constructor', 'call', 'set_val', 'setitem')]
     cells += [('family', f) for f in ('pyint', 'pyfloat', 'str', 'npf', 'npi', 'npu', 'arrf', 'arri', 'arru', 'list', 'tuple', 'pycomplex')]
     cells += [('noncontiguous_carrier', c) for c in ('1d', '2d', 'bigfloat2d')] + [('object_array_mixed',)] + [('object_array_numpy_first', t) for t in ('float32', 'float16', 'int8', 'uint8', 'int16')]
-    cells += [('complex_real_indexed', k_) for k_ in ('array', 'scalar', 'huge')] + [('complex_into_real_typed', k_) for k_ in ('like()', 'add-out_like', 'mul-out', 'Fxp(x, like=)')] + [('complex_indexed_store', k_) for k_ in ('dtype-string', 'resize-dtype', 'real-object')]
+    cells += [('complex_real_indexed', k_) for k_ in ('array', 'scalar', 'huge')] + [('complex_into_real_typed', k_) for k_ in ('like()', 'add-out_like', 'mul-out', 'Fxp(x, like=)')] + [('complex_indexed_store', k_) for k_ in ('dtype-string', 'resize-dtype', 'real-object', 'dtype-string-raw', 'dtype-string-fxp', 'element-holder')] + [('complex_through_view',)]
     if np.finfo(np.longdouble).nmant > 52:
         cells += [('extended_precision_containers',)]
     return cells
@@ -363,6 +363,18 @@ def run_case(case, ctx):
                     of_ = np.empty(len(els) + 1, dtype=object)
                     of_[:] = [first] + [els[1], els[0]] + els[2:]
                     _store_all_routes(Fxp, of_, (len(els) + 1,), s, w, nf, r, o, routes=('constructor', 'call', 'setitem') if first.dtype.kind == 'f' else ('constructor', 'set_val'))
+                    # (the read judge cannot tell a value type taken from a narrow first element from the documented cast to the dtype of a narrow
+                    #  array: the read back of this carrier, whose dtype is object, is compared here)
+                    try:
+                        xo_ = Fxp(of_, s, w, nf, rounding=r, overflow=o)
+                        gv_ = [F(v_) for v_ in np.asarray(xo_.get_val(), dtype=object).ravel().tolist()]
+                        kv_ = [F(int(k_)) * R.lsb(nf) for k_ in np.asarray(xo_.val).ravel().tolist()]
+                    except Exception:
+                        gv_ = kv_ = None
+                    if gv_ is not None and gv_ != kv_:
+                        ctx.violation('read_back', 'object array %r stored into %s: get_val() returns %s, codes*LSB = %s (value type %r)' % (
+                            of_.tolist(), R.dtype_fxp(s, w, nf), [str(v_) for v_ in gv_[:4]], [str(v_) for v_ in kv_[:4]], xo_.vdtype), key='read.object_array_first_element_type')
+                    ctx.judged(('object-array-read-back', first.dtype.name), True, None)
                     ctx.floor_hit(('object_array_numpy_first', first.dtype.name))
                 ctx.floor_hit(('object_array_mixed',))
         # extended-precision inputs (where longdouble is wider than a double): values of up to 63 significant bits next to codes and ties, as scalars,
@@ -494,7 +506,7 @@ def run_case(case, ctx):
             ctx.floor_hit(('complex_into_real_typed', route))
         # an object made complex by its dtype string while the value is real, and a real object: a complex value written by index keeps both components,
         # a real one keeps the object complex
-        for how in ('dtype-string', 'resize-dtype', 'real-object'):
+        for how in ('dtype-string', 'resize-dtype', 'real-object', 'dtype-string-raw', 'dtype-string-fxp', 'element-holder'):
             try:
                 rv_ = [float(v) for v in vals[:3]]
                 dts = R.dtype_fxp(s, w, nf, True)
@@ -503,22 +515,40 @@ def run_case(case, ctx):
                 elif how == 'resize-dtype':
                     xd = Fxp(rv_, s, w, nf, rounding=r, overflow=o)
                     xd.resize(dtype=dts)
+                elif how == 'dtype-string-raw':
+                    xd = Fxp([1, 0, 1], dtype=dts, raw=True, rounding=r, overflow=o)
+                elif how == 'dtype-string-fxp':
+                    xd = Fxp(Fxp(rv_, s, w, nf, rounding=r, overflow=o), dtype=dts, rounding=r, overflow=o)
                 else:
                     xd = Fxp(rv_, s, w, nf, rounding=r, overflow=o)
                 ref = Fxp(cs[1], s, w, nf, rounding=r, overflow=o)         # the same complex value stored by the constructor
-                xd[1] = cs[1]
-                codes_ = np.asarray(xd.val)
-                want = complex(np.asarray(ref.val).item())
-                got1 = complex(codes_[1]) if np.iscomplexobj(codes_) else complex(codes_[1].item(), 0)
-                dt_after = xd.dtype
-                rd = np.asarray(xd.get_val())
+                if how == 'element-holder':
+                    # (an element taken out of the real array: a scalar object of its own, written through the empty index / the ellipsis)
+                    e_ = xd[1]
+                    e_[rng.choice([(), Ellipsis])] = cs[1]
+                    xd = Fxp([0, 0, 0], s, w, nf, rounding=r, overflow=o)
+                    xd = e_
+                    codes_ = np.asarray([0, np.asarray(e_.val).item()])
+                    want = complex(np.asarray(ref.val).item())
+                    got1 = complex(codes_[1])
+                    dt_after = e_.dtype
+                    rd = np.asarray(e_.get_val())
+                    raise_after = None
+                else:
+                    xd[1] = cs[1]
+                codes_ = np.asarray(xd.val) if how != 'element-holder' else codes_
+                if how != 'element-holder':
+                    want = complex(np.asarray(ref.val).item())
+                    got1 = complex(codes_[1]) if np.iscomplexobj(codes_) else complex(codes_[1].item(), 0)
+                    dt_after = xd.dtype
+                    rd = np.asarray(xd.get_val())
             except Exception as ex:     # noqa
                 ctx.violation('complex_indexed_raises', 'complex value written by index into %s (%s) raised %s: %s' % (R.dtype_fxp(s, w, nf), how, type(ex).__name__, str(ex)[:100]), key='store.complex_indexed_raises')
                 continue
             if got1 != want or 'complex' not in str(dt_after) or not np.iscomplexobj(rd):
                 ctx.violation('complex_indexed', 'x[1] = %r into %s (%s): codes %r (the constructor stores %r), dtype %s, read back %r' % (
                     cs[1], R.dtype_fxp(s, w, nf), how, codes_.tolist(), want, dt_after, rd.tolist()), key='store.complex_indexed')
-            if how != 'real-object':
+            if how in ('dtype-string', 'resize-dtype', 'dtype-string-raw', 'dtype-string-fxp'):
                 try:
                     xd[0] = rv_[2]
                     if 'complex' not in str(xd.dtype) or not np.iscomplexobj(np.asarray(xd.get_val())):
@@ -527,3 +557,26 @@ def run_case(case, ctx):
                     pass
             ctx.judged(('complex-indexed-store', how), True, None)
             ctx.floor_hit(('complex_indexed_store', how))
+        # ... and through a view (chained indexing x[i][j] = v, a row taken out first) into an array that holds real codes
+        try:
+            rv4 = [float(v) for v in (vals * 2)[:4]]
+            xp = Fxp(np.array(rv4).reshape(2, 2), s, w, nf, rounding=r, overflow=o)
+            ref = Fxp(cs[2], s, w, nf, rounding=r, overflow=o)
+            want = complex(np.asarray(ref.val).item())
+            import warnings as _w
+            ctx.mon.enabled = False         # (judged here, at the level of the parent object: the event of the inner store only sees the view)
+            try:
+                with _w.catch_warnings():
+                    _w.simplefilter('ignore')
+                    xp[0][1] = cs[2]
+            finally:
+                ctx.mon.enabled = True
+            got = np.asarray(xp.val).ravel().tolist()[1]
+            if want.imag != 0:
+                if complex(got) != want:
+                    ctx.violation('complex_through_view', 'x[0][1] = %r on a %s array that holds real codes: code %r, the constructor stores %r (the imaginary part is dropped without any flag)' % (
+                        cs[2], R.dtype_fxp(s, w, nf), got, want), key='store.complex_through_view')
+                ctx.judged(('complex-through-view',), True, None)
+                ctx.floor_hit(('complex_through_view',))
+        except Exception:
+            pass
